@@ -541,9 +541,13 @@ def init(table, reload=False):
     """
     if 'neutron' in table.properties and not reload:
         return
-    table.properties.append('neutron')
     assert ('density' in table.properties and 'mass' in table.properties), \
         "Neutron table requires mass and density properties"
+    # The class attributes set below are shared by all tables, so make sure
+    # that the delayed load of the default table is not still pending.
+    if table is not default_table():
+        getattr(default_table()[0], 'neutron', None)
+    table.properties.append('neutron')
 
     # Defaults for missing neutron information
     missing = Neutron()
